@@ -19,6 +19,14 @@ type result struct {
 
 var suites = map[string]func() result{}
 
+// scale multiplies the number of random cases of the differential suites (thorough tier).
+var scale = func() int {
+	if os.Getenv("AXCHECK_TIER") == "thorough" {
+		return 6
+	}
+	return 1
+}()
+
 func main() {
 	if len(os.Args) < 2 {
 		fmt.Println("usage: axcheck <suite>")
